@@ -61,7 +61,8 @@ def main():
     run = O.Run("c20_parsimony")
     N = run.budget(300, 3000)
     run.scope = ("%d seeded small trees (multiple roots, unary nodes, internal samples, polytomies) x every genotype vector over "
-                 "<=3 alleles with missing data (<=5 samples) x fixed ancestral state (also outside the observed alleles)" % N)
+                 "<=3 alleles with missing data (<=5 samples) x fixed ancestral state (also outside the observed alleles); stars, an "
+                 "internal polytomy and isolated roots of 255-513 leaves with 1, 2 or 44 derived leaves" % N)
     for k in range(N):
         t = O.random_tables(run.rng, sites=False, max_samples=4, max_internal=3, max_breaks=0, internal_samples=True)
         ts = t.tree_sequence()
@@ -112,9 +113,55 @@ def main():
                                   {"returned": len(muts), "mutations": [(m.node, m.derived_state, m.parent) for m in muts], "ancestral": a}, best)
         if run.violations:
             break
+    # wide nodes: more children than fit in a byte-sized tally (stars, an internal polytomy, many isolated roots)
+    def wide_tree(kind, n):
+        t = tskit.TableCollection(1.0)
+        for _ in range(n):
+            t.nodes.add_row(flags=1, time=0)
+        if kind == "star":
+            r = t.nodes.add_row(time=1)
+            for u in range(n):
+                t.edges.add_row(0, 1, r, u)
+        elif kind == "inner":
+            p_ = t.nodes.add_row(time=1)
+            r = t.nodes.add_row(time=2)
+            for u in range(n - 3):
+                t.edges.add_row(0, 1, p_, u)
+            for u in range(n - 3, n):
+                t.edges.add_row(0, 1, r, u)
+            t.edges.add_row(0, 1, r, p_)
+        t.sort()
+        return t
+    for kind in ("star", "inner", "isolated"):
+        for n in (255, 256, 257, 258, 300, 513):
+            for nder in (1, 2, 44):
+                if run.violations:
+                    break
+                t = wide_tree(kind, n)
+                tree = t.tree_sequence().first()
+                samples = list(range(n))
+                geno = [0] * n
+                for u in run.rng.sample(range(n), nder):
+                    geno[u] = 1
+                for anc in (None, 0):
+                    run.case(("wide", kind, n, nder, anc))
+                    kw = {} if anc is None else {"ancestral_state": "A"}
+                    a, muts = tree.map_mutations(np.array(geno, dtype=np.int8), ["A", "C"], **kw)
+                    got = replay(tree, samples, a, muts)
+                    if got != ["AC"[x] for x in geno]:
+                        run.violation("the placement reproduces every non-missing genotype", {"tree": kind, "n": n, "derived": nder}, "mismatch", "identical")
+                    best = min(nder, n - nder) if (anc is None and kind != "inner") else None
+                    if kind in ("star", "isolated"):
+                        best = min(nder, n - nder) if anc is None else nder
+                    else:
+                        best = min_changes(tree, geno, samples, ancestral=anc)
+                    if len(muts) != best:
+                        run.violation("the number of mutations is the minimum possible",
+                                      {"tree": kind, "n": n, "derived_leaves": nder, "ancestral_state": anc},
+                                      {"returned": len(muts), "ancestral": a}, best)
     run.sample({"note": "see scope"})
     run.finish()
 
 
 if __name__ == "__main__":
-    main()
+    O.run_main(main)
